@@ -750,9 +750,9 @@ fn cmd_run(args: &[String]) -> i32 {
     };
     let start = std::time::Instant::now();
     let mut rep = RunReport { prop: prop.to_string(), seed, from, to, ..Default::default() };
-    let mut sigs: std::collections::HashSet<u64> = std::collections::HashSet::new();
-    let mut nontrivial_sigs: std::collections::HashSet<u64> = std::collections::HashSet::new();
-    let mut traces: std::collections::HashSet<u64> = std::collections::HashSet::new();
+    let mut sigs: std::collections::BTreeSet<u64> = std::collections::BTreeSet::new();
+    let mut nontrivial_sigs: std::collections::BTreeSet<u64> = std::collections::BTreeSet::new();
+    let mut traces: std::collections::BTreeSet<u64> = std::collections::BTreeSet::new();
     let mut code = 0;
     for index in from..to {
         let mut fam = gen::generate(profile, seed, index, tgt);
@@ -783,7 +783,11 @@ fn cmd_run(args: &[String]) -> i32 {
                 libc::pwrite(fd, b.as_ptr() as *const libc::c_void, 8, 0);
             }
         }
-        let t_gen = start.elapsed().as_secs_f64();
+        // not under the interpreter: reading the host clock costs a number of
+        // interpreted steps that depends on the time read (a borrow in the
+        // subtraction), and the interpreter's seeded scheduler draws once per
+        // step: the same interpreter seed would give another schedule
+        let t_gen = if cfg!(miri) { 0.0 } else { start.elapsed().as_secs_f64() };
         let fo = run_family(&fam, &mut rep.stats);
         if std::env::var_os("MEMSIM_TIMING").is_some() {
             eprintln!(
